@@ -5,7 +5,7 @@ import threading
 
 from .. import streams as st
 from ..common import plan_hash
-from ..engine import Outcome, Verdict, crash_verdicts, infra_problem, shrink_list
+from ..engine import loss_shape, Outcome, Verdict, crash_verdicts, infra_problem, shrink_list
 
 ID = "C08"
 RULE = ("case = data tree (depth <= 6 over fixnums, bignums, ratios, complex, flonums incl. subnormals/boundary powers/+-inf/NaN/-0.0, chars "
@@ -291,7 +291,7 @@ def execute(case, run):
         V.append(Verdict("write-error", "writer %s raised on the %s sink: %s" % (case["writer"], okind, ws[3]["res"][:200]), {"writer": case["writer"], "kind": okind}))
     elif sink != text:
         V.append(Verdict("sink-mismatch", "%s sink received %r..., string-port text is %r..." % (okind, sink[:60], text[:60]),
-                         {"kind": okind, "shape": "prefix" if text.startswith(sink) else "other",
+                         {"kind": okind, "shape": loss_shape(text, sink),
                           "backpressure": bool(sres.get("shorts", 0) or sres.get("blocks", 0))}))
     wcnt = wres.get("counters", {})
     # ---- reader run
